@@ -448,4 +448,14 @@ def obligations(tier, seed):
                           {"objects": 4}, [R.IntersectionRequirement.falsifiedByInner, R.ContainmentRequirement.falsifiedByInner,
                                            R.VisibilityRequirement.falsifiedByInner, R.NonVisibilityRequirement.falsifiedByInner],
                           ["intersects / containsObject / canSee: uninterpreted symbolic Booleans"]))
+    # the built-in collision / containment requirements decide through these fast paths (shared with C04)
+    import scenic.core.object_types as OT
+    import scenic.core.regions as RG
+    from harness import c04_overlap as C4
+
+    o4 = dict(total_timeout=300.0, vc_timeout=20.0)
+    obs.append(Obligation("object-intersects-object[shared with C04]", C4.h_object_intersects, "Object.intersects with the planar-box fast path and the real _isPlanarBox",
+                          {"shapes": "box / non-box", "pitch/roll": "zero / non-zero"}, [OT.Object.intersects, OT.Object._isPlanarBox.fget], [C4.ASSUMPTIONS[6]], opts=o4))
+    obs.append(Obligation("footprint-contains-object[shared with C04]", C4.h_footprint_contains_object, "PolygonalFootprintRegion.containsObject hull shortcut",
+                          {}, [RG.PolygonalFootprintRegion.containsObject], [C4.ASSUMPTIONS[7]], opts=o4))
     return obs
